@@ -2,6 +2,10 @@
 import json, os, subprocess, sys, concurrent.futures
 import vlib
 
+def _case(x, mode):
+    if isinstance(x, dict): return dict(x, mode=x.get("mode", mode))
+    return {"src": x, "mode": mode}
+
 def run_impl(srcs, mode="exec", workers=16):
     """returns list of result dicts aligned with srcs; a crashing worker yields {'crash':...} for
     the offending case and the rest are re-run"""
@@ -9,7 +13,7 @@ def run_impl(srcs, mode="exec", workers=16):
     def work(idx_list):
         pending = list(idx_list)
         while pending:
-            inp = "".join(json.dumps({"src": srcs[i], "mode": mode}) + "\n" for i in pending)
+            inp = "".join(json.dumps(_case(srcs[i], mode)) + "\n" for i in pending)
             p = subprocess.run("ulimit -v 8000000; exec %s runpy" % os.path.join(vlib.GO, "bin", "impl"), shell=True,
                                input=inp, stdout=subprocess.PIPE, stderr=subprocess.PIPE, text=True, env=vlib.GOENV, timeout=3000)
             lines = [l for l in p.stdout.splitlines() if l.startswith("{")]
@@ -29,7 +33,7 @@ def run_impl(srcs, mode="exec", workers=16):
 def run_ref(srcs, mode="exec", workers=8):
     results = [None] * len(srcs)
     def work(idx_list):
-        inp = "".join(json.dumps({"src": srcs[i], "mode": mode}) + "\n" for i in idx_list)
+        inp = "".join(json.dumps(_case(srcs[i], mode)) + "\n" for i in idx_list)
         p = subprocess.run([sys.executable, os.path.join(vlib.VERIF, "tools", "pyref.py")], input=inp,
                            stdout=subprocess.PIPE, stderr=subprocess.PIPE, text=True, timeout=3000)
         lines = [l for l in p.stdout.splitlines() if l.startswith("{")]
